@@ -14,6 +14,8 @@ import ChibiVerif.Lemmas.LinkageExact
 
 namespace ChibiVerif.Linkage
 
+variable [Rules]
+
 def completeTy (t : ObjTy) : ObjTy := if t.isArray && t.unknownLen then { t with unknownLen := false } else t
 
 theorem completeArray_eq (o : Obj) : completeArray o = { o with ty := completeTy o.ty } := by
@@ -280,8 +282,8 @@ theorem scanLoop_good {P : TyParams} {s : Sym} {all : List Obj} (hreal : all.any
                 rw [this] at hs; cases hs
               · exact ih rest hn' hc o ho hs
 
-theorem scanGlobals_good {P : TyParams} {s : Sym} {gs : List Obj} (hreal : gs.any (realDefOf s) = false)
-    (hc : ChainOK P (tysOf s gs)) : ∀ o, o ∈ scanGlobals gs → isTentOf s o = true → GoodTy P o.ty :=
+theorem scanCore_good {P : TyParams} {s : Sym} {gs : List Obj} (hreal : gs.any (realDefOf s) = false)
+    (hc : ChainOK P (tysOf s gs)) : ∀ o, o ∈ scanCore gs → isTentOf s o = true → GoodTy P o.ty :=
   scanLoop_good hreal gs.length gs (Nat.le_refl _) hc
 
 end ChibiVerif.Linkage
